@@ -51,10 +51,12 @@ impl RequestHandler<PrepareRenameRequest> for PrepareRenameRequestHandler {
                     None => return Ok(None),
                 };
 
-                // Try to find the start of identifier under the cursor
+                // Try to find the start of identifier under the cursor (the delimiter in front of it may be a multi-byte character)
                 let start = line[..source_column]
-                    .rfind(|c: char| !c.is_alphanumeric() && c != '_')
-                    .map(|pos| pos + 1)
+                    .char_indices()
+                    .rev()
+                    .find(|(_, c)| !c.is_alphanumeric() && *c != '_')
+                    .map(|(pos, c)| pos + c.len_utf8())
                     .unwrap_or_default();
 
                 // Find the end of the identifier under the cursor
